@@ -1,20 +1,22 @@
 #!/bin/bash
 # Regression over every recorded injected change: apply seeded/<name>/patch.diff to /repo, run the checks meta.json
 # names as catching it (quick tier), revert, and report.  Ends with all evidence regenerated from the clean tree.
-# usage: tools/reseed_all.sh [name-prefix]
+# usage: tools/reseed_all.sh [name-prefix]      (KFAC_REPO=<scratch worktree> runs the regression against a scratch copy instead of /repo,
+# e.g. while other checks run against /repo; the harness imports kfac from $KFAC_REPO)
 cd /verif
-git -C /repo diff --quiet || { echo "/repo has local changes; aborting"; exit 2; }
+R=${KFAC_REPO:-/repo}
+git -C $R diff --quiet || { echo "$R has local changes; aborting"; exit 2; }
 fail=0
 touched=""
 for d in seeded/${1:-}*/; do
   n=$(basename $d)
   checks=$(python3 -c "import json;print(' '.join(json.load(open('$d/meta.json'))['checks_that_catch_it']))")
-  git -C /repo apply /verif/$d/patch.diff || { echo "$n: patch does not apply"; fail=1; continue; }
+  git -C $R apply /verif/$d/patch.diff || { echo "$n: patch does not apply"; fail=1; continue; }
   for c in $checks; do
     if ./check $c --tier quick 2>&1 | grep -q "^VIOLATION"; then echo "$n: $c caught"; else echo "$n: $c MISSED"; fail=1; fi
     touched="$touched $c"
   done
-  git -C /repo checkout -- .
+  git -C $R checkout -- .
 done
 for c in $(echo $touched | tr ' ' '\n' | sort -u); do ./check $c --tier quick > /dev/null 2>&1 || echo "WARNING: $c does not pass on the restored tree"; done
 exit $fail
